@@ -381,6 +381,217 @@ def _holds_crop_free(ctx, inp, out):
     return None
 
 
+# ---- library-produced inputs: the array handed to a C17 function is what other library functions returned
+# (create_*_range, *_dim_from_array, set_dim_attrs, ops.resize, and C17's own crop_dim / extend_dim / adjust_dim_width).
+# The produced array is read back (coordinates, cells, `step` attribute): that content is the input of the final
+# call.  Premise monitor: "the step attribute, if present, agrees with the coordinates within the estimation
+# tolerance" (rtol 1e-5, atol 1e-8), evaluated after every producing step.  The expected result continues the
+# lattice of the coordinates - which is the attribute's lattice whenever the attribute is truthful.
+C17_PRODUCERS = ("crop_dim", "extend_dim", "width")
+_P_RTOL, _P_ATOL = Fraction(1, 100000), Fraction(1, 100000000)
+
+
+def _read_axis(arr, dim):
+    """(coordinates as Fractions, step attribute as Fraction | None | 'bad', lattice step | None, regular?)"""
+    import numpy as np
+    cs = [Fraction(float(c)) for c in np.asarray(arr.coords[dim].values)]
+    a = arr.coords[dim].attrs.get("step")
+    try:
+        attr = None if a is None else Fraction(float(a))
+    except (TypeError, ValueError, OverflowError):
+        attr = "bad"
+    lat, regular = None, True
+    if len(cs) >= 2:
+        lat = (cs[-1] - cs[0]) / (len(cs) - 1)
+        tol = _P_ATOL + _P_RTOL * abs(lat)
+        regular = lat > 0 and all(abs((b - a_) - lat) <= tol for a_, b in zip(cs, cs[1:]))
+    return cs, attr, lat, regular
+
+
+def _attr_truthful(attr, lat):
+    if attr == "bad":
+        return False
+    if attr is None or lat is None:
+        return True
+    return abs(attr - lat) <= _P_ATOL + _P_RTOL * abs(lat)
+
+
+def _rel_request(spec, cs, step):
+    """a request given relative to the axis as it is (half-steps beyond the ends, coordinate indices, width
+    difference) -> the request in absolute numbers (exact rationals)"""
+    n = len(cs)
+    fn = spec["fn"]
+    if fn == "extend_dim":
+        req = {"fn": fn, "start": None if spec.get("none_l") else rat(cs[0] - Fraction(spec["kl2"], 2) * step),
+               "stop": None if spec.get("none_r") else rat(cs[-1] + Fraction(spec["kr2"], 2) * step),
+               "lc": spec["lc"], "rc": spec["rc"], "fill": spec["fill"], "eps": None}
+    elif fn == "crop_dim":
+        i = min(spec["i"], n - 1)
+        j = min(max(spec["j"], i), n - 1)
+        st = max(cs[i] - (step / 2 if spec.get("half_l") else 0), cs[0])
+        en = min(cs[j] + (step / 2 if spec.get("half_r") else 0), cs[-1])
+        req = {"fn": fn, "start": rat(st), "stop": rat(en), "lc": spec["lc"], "rc": spec["rc"], "eps": None}
+    else:
+        req = {"fn": "width", "w": max(1, n + spec["dw"]), "fill": spec["fill"], "pos": spec["pos"]}
+    if spec.get("call") is not None:
+        req["call"] = spec["call"]
+    return req
+
+
+def _first_array(p, dim, layout):
+    """the first producer: an array built through the library's constructors (or plainly)"""
+    import numpy as np
+    import xarray as xr
+    from soundevent.arrays import dimensions as dims
+    kind = p["p"]
+    a0, step, n = f(p["a0"]), f(p["step"]), p["n"]
+    k = _ncols(layout)
+    if kind == "range":
+        how = p.get("how", "step")
+        if p["fn"] == "create_range_dim":
+            kw = {"size": n} if how == "size" else {"step": step}
+            var = dims.create_range_dim(dim, a0, a0 + n * step, **kw)
+        elif p["fn"] == "create_frequency_range":
+            var = dims.create_frequency_range(a0, a0 + n * step, step, name=dim)
+        else:
+            kw = {"samplerate": 1 / step} if how == "samplerate" else {"step": step}
+            var = dims.create_time_range(a0, a0 + n * step, name=dim, **kw)
+        m = int(var.shape[0])
+        c = np.asarray(var.values)
+    else:
+        c = a0 + step * np.arange(n)
+        m = n
+        if kind == "from_array":
+            how = p.get("how", "step")
+            kw = {"step": step} if how == "step" else {"estimate_step": True} if how == "estimate" else {"samplerate": 1 / step}
+            if p["fn"] == "frequency" and how == "samplerate":
+                kw = {"step": step}
+            ctor = dims.create_frequency_dim_from_array if p["fn"] == "frequency" else dims.create_time_dim_from_array
+            var = ctor(c, name=dim, **kw)
+        else:
+            var = xr.Variable((dim,), c, attrs={"step": step} if (kind == "plain" and p.get("attr")) else {})
+    data = [[("nan" if (i % 7 == 3 and j == 0) else (i + 1) + 100 * j) for j in range(k)] if k > 1 else ("nan" if i % 7 == 3 else i + 1)
+            for i in range(m)]
+    arr = calls._assemble(calls._matrix(data, layout, False), var, c, dim, layout)
+    if kind == "set_dim_attrs":
+        arr = dims.set_dim_attrs(arr, dim, step=step)
+    return arr
+
+
+def _produce_step(arr, p, dim):
+    """one transforming producer applied to the real object"""
+    if p["p"] == "resize":
+        from soundevent.arrays import operations as ops
+        n = arr.sizes[dim]
+        size = {"double": 2 * n, "quad": 4 * n, "half": max(n // 2, 1), "same": n, "plus3": n + 3, "third": max(n // 3, 1)}[p["size"]]
+        kw = {dim: size}
+        return ops.resize(arr, method=p.get("method", "linear"), **kw) if p.get("method") else ops.resize(arr, **kw)
+    cs, attr, lat, _reg = _read_axis(arr, dim)
+    step = lat if lat is not None else attr
+    return _apply_step(arr, _rel_request(p, cs, step), dim)
+
+
+def _impl_produced(inp):
+    dim, layout = inp.get("dim", "time"), inp.get("layout", "1d")
+    chain = inp["chain"]
+    trail, culprit = [], None
+    try:
+        arr = _first_array(chain[0], dim, layout)
+    except Exception as e:  # noqa: BLE001 - the constructors are not under test here
+        return {"val": {"skip": "producer-raised:" + chain[0]["p"] + ":" + type(e).__name__}}
+    for k, p in enumerate(chain):
+        if k > 0:
+            cs, attr, lat, regular = _read_axis(arr, dim)
+            if not cs or not regular or (lat is None and attr in (None, "bad")):
+                return {"val": {"skip": "outside-quantifier-after:" + "+".join(trail)}}
+            try:
+                arr = _produce_step(arr, p, dim)
+            except Exception as e:  # noqa: BLE001
+                return {"val": {"skip": "producer-raised:" + p.get("fn", p["p"]) + ":" + type(e).__name__}}
+        name = "resize" if p["p"] == "resize" else ("create_%s_dim_from_array" % p["fn"]) if p["p"] == "from_array" else p.get("fn", p["p"])
+        trail.append(name)
+        cs, attr, lat, regular = _read_axis(arr, dim)
+        if culprit is None and not _attr_truthful(attr, lat):
+            culprit = {"step": k, "producer": name, "attr": None if attr in (None, "bad") else rat(attr),
+                       "lattice": None if lat is None else rat(lat)}
+    cs, attr, lat, regular = _read_axis(arr, dim)
+    if not cs or not regular or (lat is None and attr in (None, "bad")):
+        return {"val": {"skip": "outside-quantifier-after:" + "+".join(trail)}}
+    truthful = _attr_truthful(attr, lat)
+    step = attr if (attr not in (None, "bad") and truthful) else lat
+    if step is None or step <= 0:
+        return {"val": {"skip": "no-step-after:" + "+".join(trail)}}
+    produced = _out(arr, layout, dim)
+    if is_err(produced):
+        return {"val": {"skip": "producer-changed-shape:" + "+".join(trail)}}
+    req = _rel_request(inp["call"], cs, step)
+    try:
+        before = _snapshot(arr, dim)
+        r = _apply_step(arr, req, dim)
+        out = {"raise": "crash:input-array-mutated"} if _snapshot(arr, dim) != before else _out(r, layout, dim)
+    except Exception as e:  # noqa: BLE001 - an exception of the real code is the observation
+        out = canon_exc(e)
+    return {"val": {"produced": produced["val"], "step_attr": None if attr in (None, "bad") else rat(attr), "step": rat(step),
+                    "truthful": truthful, "culprit": culprit, "trail": trail, "request": req, "out": out}}
+
+
+def _holds_produced(ctx, inp, io):
+    if is_err(io):
+        return "the driver of the construction path raised %s" % io["raise"]
+    v = io["val"]
+    if "skip" in v:
+        ctx.tally("produced:skipped:" + v["skip"].split(":")[0])
+        return None
+    trail, req, out = v["trail"], v["request"], v["out"]
+    layout = inp.get("layout", "1d")
+    ctx.tally("produced:" + ">".join(trail) + ">" + req["fn"])
+    cul = v["culprit"]
+    if cul is not None:
+        what = (f"after `{cul['producer']}` (step {cul['step']} of {' -> '.join(trail)}) the `step` attribute {cul['attr']} contradicts "
+                f"the coordinates (spacing {cul['lattice']})")
+        if cul["producer"] in C17_PRODUCERS and cul["step"] > 0:
+            return what + ": the function returned an axis that later calls cannot continue on its own lattice"
+        ctx.tally("produced:untruthful-step-attribute-from:" + cul["producer"])
+        note = "construction paths: " + what.split(" (step")[0] + " left a `step` attribute that contradicts the coordinates (not one of C17's functions)"
+        if note not in ctx.notes:
+            ctx.note(note)
+    cs = [frac(c) for c in v["produced"]["coords"]]
+    step = frac(v["step"])
+    data = v["produced"]["data"]
+    nums = [frac(req[k]) for k in ("start", "stop") if req.get(k) is not None] + [step]
+    exact = all(c == cs[0] + i * step for i, c in enumerate(cs)) and all(float(q) == q and q.denominator <= (1 << 30) for q in nums + cs)
+    suffix = "" if v["truthful"] else (f" [the input's step attribute {v['step_attr']} contradicts its coordinates (spacing {v['step']}); "
+                                        f"produced by {' -> '.join(trail)}]")
+    if exact:
+        ctx.tally("produced:judged-exact")
+        full = dict(req, coords=v["produced"]["coords"], data=data, step_attr=v["step"], layout=layout)
+        mo = ctx.model({"crop_dim": "crop_dim", "extend_dim": "extend_dim", "width": "width"}[req["fn"]],
+                       calls.to_model(_SESSION_FN[req["fn"]], dict(full, fn="adjust") if req["fn"] == "width" else
+                                      {k: x for k, x in full.items() if k != "fn" and not (req["fn"] == "crop_dim" and k == "step_attr")}))
+        o = {k: x for k, x in out.items() if k != "trace"}
+        if o != mo:
+            return (f"{req['fn']} on the array produced by {' -> '.join(trail)} disagrees with the model on that array: "
+                    f"impl={jkey(o)[:200]} model={jkey(mo)[:200]}" + suffix)
+        return None
+    # non-dyadic axes: the property evaluated on the real output (length, placement, fill, lattice within tolerance)
+    ctx.tally("produced:judged-free")
+    n = len(cs)
+    base = {"n": n, "layout": layout, "data": data, "a0": rat(cs[0]), "step": v["step"]}
+    fo = None if is_err(out) else {"val": {"coords": fl(out["val"]["coords"]), "data": out["val"]["data"], "orig": [float(c) for c in cs]}}
+    call = inp["call"]
+    if req["fn"] == "width":
+        msg = _holds_width_free(ctx, dict(base, w=req["w"], pos=req["pos"], fill=req["fill"]), fo or out)
+    elif req["fn"] == "extend_dim":
+        msg = _holds_extend_free(ctx, dict(base, fill=req["fill"], kl2=0 if call.get("none_l") else call["kl2"],
+                                           kr2=0 if call.get("none_r") else call["kr2"], lc=True if call.get("none_l") else call["lc"],
+                                           rc=True if call.get("none_r") else call["rc"]), fo or out)
+    else:
+        if fo is not None:
+            fo["val"].update(start=f(req["start"]), stop=f(req["stop"]))
+        msg = _holds_crop_free(ctx, dict(base, lc=req["lc"], rc=req["rc"]), fo or out)
+    return None if msg is None else f"{req['fn']} on the array produced by {' -> '.join(trail)}: {msg}" + suffix
+
+
 _NOOP = dict(model_op="noop", to_model=lambda inp: {}, compare=lambda inp, io, mo: None, mode="tolerance")
 
 
@@ -543,6 +754,8 @@ OPS = {
     "width_free": Op("width_free", _impl_width_free, holds=_holds_width_free, **_NOOP),
     "extend_free": Op("extend_free", _impl_extend_free, holds=_holds_extend_free, **_NOOP),
     "crop_free": Op("crop_free", _impl_crop_free, holds=_holds_crop_free, **_NOOP),
+    "produced": Op("produced", _impl_produced, holds=_holds_produced, compare=lambda inp, io, mo: None, no_model=True,
+                   nontrivial=lambda inp, out: not is_err(out) and "out" in out["val"] and not is_err(out["val"]["out"])),
 }
 
 
@@ -1829,6 +2042,97 @@ def _width_sweep_cases(ctx):
                            "fill": rng.choice(FREE_FILLS), "layout": "1d", "data": None}
 
 
+# ------------------------------------------------------------------ library-produced inputs (construction paths through the library)
+_FIRSTS = [{"p": "plain", "attr": True}, {"p": "plain", "attr": False},
+           {"p": "range", "fn": "create_time_range", "how": "step"}, {"p": "range", "fn": "create_time_range", "how": "samplerate"},
+           {"p": "range", "fn": "create_frequency_range"}, {"p": "range", "fn": "create_range_dim", "how": "step"},
+           {"p": "range", "fn": "create_range_dim", "how": "size"},
+           {"p": "from_array", "fn": "time", "how": "step"}, {"p": "from_array", "fn": "time", "how": "samplerate"},
+           {"p": "from_array", "fn": "time", "how": "estimate"}, {"p": "from_array", "fn": "frequency", "how": "step"},
+           {"p": "from_array", "fn": "frequency", "how": "estimate"}, {"p": "set_dim_attrs"}]
+_RESIZES = ["double", "half", "quad", "same", "plus3", "third"]
+
+
+def _rel_call(rng, kind, fill=None):
+    fill = rng.choice(FILL_KINDS) if fill is None else fill
+    lc, rc = rng.choice(_FLAGS)
+    if kind == "extend_dim":
+        c = _inside_quantifier({"fn": kind, "kl2": rng.choice([0, 1, 2, 3, 4, 7]), "kr2": rng.choice([0, 1, 2, 3, 5, 6]), "lc": lc, "rc": rc, "fill": fill})
+        r = rng.random()
+        if r < 0.1:
+            c["none_l"] = True
+        elif r < 0.2:
+            c["none_r"] = True
+        return c
+    if kind == "crop_dim":
+        i = rng.randrange(0, 6)
+        return {"fn": kind, "i": i, "j": i + rng.randrange(0, 8), "half_l": rng.random() < 0.5, "half_r": rng.random() < 0.5, "lc": lc, "rc": rc}
+    return {"fn": "width", "dw": rng.choice([-2, -1, 0, 1, 2, 3, 5]), "pos": rng.choice(["start", "center", "end"]), "fill": fill}
+
+
+def _produced_cases(ctx, count):
+    """first producer (a constructor of the library, or a plain array) -> 0-2 transforming producers (ops.resize,
+    crop_dim, extend_dim, adjust_dim_width) -> the C17 call under test, on dyadic axes (judged exactly by the model)
+    and on decimal ones (judged by the property on the real output)"""
+    rng = ctx.rng
+
+    def first(tpl, decimal=False):
+        n = rng.choice([2, 3, 4, 6, 8, 10])
+        if decimal:
+            a0, step = rng.choice([0.0, 0.3, 1.0]), rng.choice([0.1, 0.01, 1 / 3, 0.05])
+            p = dict(tpl, a0=rat(a0), step=rat(step), n=n)
+        else:
+            k = rng.choice([0, 1, 2, 3])
+            a0, step, _ = _axis(rng, n, k)
+            if tpl.get("how") == "samplerate":
+                step = Fraction(1, 1 << k)      # 1 / samplerate must be the very step
+            p = dict(tpl, a0=rat(a0), step=rat(step), n=n)
+        return p
+
+    def case(chain, call, layout=None, dim=None):
+        c = {"chain": chain, "call": call, "layout": layout or rng.choice(["1d", "1d", "2d-first", "2d-last"]),
+             "dim": dim or rng.choice(calls.DIMS)}
+        if rng.random() < 0.15:
+            call["call"] = rng.randint(0, calls.n_optional(_SESSION_FN[call["fn"]]))
+        return c
+
+    # systematic: every first producer x (nothing | every resize) x every function under test
+    for tpl in _FIRSTS:
+        for mid in [None] + _RESIZES:
+            for kind in ("extend_dim", "width", "width", "crop_dim"):
+                chain = [first(tpl)] + ([{"p": "resize", "size": mid}] if mid else [])
+                call = _rel_call(rng, kind)
+                if kind == "width" and call["dw"] <= 0 and rng.random() < 0.7:
+                    call["dw"] = rng.choice([1, 2, 4])
+                yield case(chain, call)
+    # the seeded shapes of wave 5 with decimal steps: create_time_range(0, 1, 0.1) -> resize -> widen
+    for tpl in _FIRSTS:
+        for mid in ("double", "half", "plus3"):
+            for kind in ("extend_dim", "width"):
+                yield case([first(tpl, decimal=True), {"p": "resize", "size": mid}], _rel_call(rng, kind, fill=rng.choice([0, -7, "nan", "1/2"])), layout="1d")
+    for _ in range(count):
+        chain = [first(rng.choice(_FIRSTS), decimal=rng.random() < 0.2)]
+        for _k in range(rng.choice([0, 1, 1, 2])):
+            r = rng.random()
+            if r < 0.4:
+                t = {"p": "resize", "size": rng.choice(_RESIZES)}
+                if rng.random() < 0.2:
+                    t["method"] = rng.choice(["linear", "nearest"])
+                chain.append(t)
+            else:
+                chain.append(dict(_rel_call(rng, rng.choice(["extend_dim", "extend_dim", "crop_dim", "width"])), p="c17"))
+        yield case(chain, _rel_call(rng, rng.choice(["extend_dim", "extend_dim", "width", "width", "crop_dim"])))
+
+
+def _stage_produced(ctx):
+    ctx.run_cases(OPS["produced"], _produced_cases(ctx, ctx.budget(500, 5000)))
+    ctx.exhaustive["library-produced"] = ("first producer (plain with / without step attribute, create_time_range by step / samplerate, "
+                                          "create_frequency_range, create_range_dim by step / size, create_time_dim_from_array by step / "
+                                          "samplerate / estimate, create_frequency_dim_from_array by step / estimate, set_dim_attrs) x "
+                                          f"(no transformer | ops.resize to {_RESIZES}) x extend_dim / adjust_dim_width / crop_dim; the "
+                                          "same with decimal steps (0.1, 0.01, 1/3, 0.05) x resize double / half / plus3 x widening")
+
+
 QUICK_LENGTHS = [1, 2, 3, 4, 5, 7, 8, 12, 16, 25, 40]
 
 
@@ -1927,6 +2231,7 @@ def run(ctx):
     ctx.stage("boundaries-exact", _stage_boundaries, ctx)
     ctx.stage("history-exact", lambda: ctx.run_cases(OPS["history"], _history_cases(ctx, ctx.budget(700, 6000))))
     ctx.stage("sessions-exact", _stage_sessions, ctx)
+    ctx.stage("library-produced", _stage_produced, ctx)
     ctx.stage("step-exact", lambda: ctx.run_cases(OPS["dim_step"], _step_cases(ctx)))
     ctx.stage("range-exact", lambda: ctx.run_cases(OPS["dim_range"], _range_cases(ctx)))
     ctx.stage("width-free-monitor", lambda: ctx.run_cases(OPS["width_free"], _free_typed(ctx.rng, _width_free_cases(ctx))))
@@ -1946,6 +2251,7 @@ def search(ctx, failures):
     _stage_dtype_fill(ctx)
     ctx.run_cases(OPS["history"], _history_cases(ctx, 700))
     _stage_sessions(ctx)
+    _stage_produced(ctx)
     ctx.run_cases(OPS["dim_step"], _step_cases(ctx))
     ctx.run_cases(OPS["width_free"], _free_typed(ctx.rng, _width_free_cases(ctx)))
     ctx.run_cases(OPS["extend_free"], _extend_free_cases(ctx))
